@@ -548,8 +548,8 @@ func runC10(t *vs.Tape, cfg map[string]string) (res vs.Result) {
 		db = ct.pebble
 	}
 	target := filepath.Join(ct.root, "src")
-	scanDeps := ct.tree.DepModule != "" && t.Chance("scan.deps", 1, 2)
-	depsDepth := vs.Pick(t, "scan.depth", "direct", "transitive")
+	scanDeps := ct.tree.DepModule != "" && t.Chance("scan.deps", 2, 3)
+	depsDepth := vs.Pick(t, "scan.depth", "direct", "transitive", "transitive")
 	if cmd == "scan" && scanDeps {
 		c.Inc("scan_with_deps")
 	}
